@@ -41,17 +41,28 @@ class Ctx:
             self.solver.add(c)
         self.solver_s = 0.0
         self.calls = 0
+        self.timeout_ms = timeout_ms
 
     def feasible(self, e: typing.Any) -> bool:
+        """is (pc and e) satisfiable?  Decided on the connected component of pc that shares inputs with e (exact: the rest of pc is
+        satisfiable on its own, because the path so far is feasible, and shares no variable with the component); answers are cached
+        across paths and runs (they are logical facts)."""
         t = time.time()
-        self.solver.push()
-        self.solver.add(e)
-        r = self.solver.check()
-        self.solver.pop()
+        sl = slice_pc(self.pc, e)
+        key = (frozenset(c.get_id() for c in sl), e.get_id())
+        if key in _FEAS_CACHE:
+            return _FEAS_CACHE[key]
+        s = z3.Solver()
+        s.set("timeout", self.timeout_ms)
+        for c in sl:
+            s.add(c)
+        s.add(e)
+        r = s.check()
         self.solver_s += time.time() - t
         self.calls += 1
         if r == z3.unknown:
             raise Unsupported("solver unknown on a feasibility check")
+        _FEAS_CACHE[key] = r == z3.sat
         return r == z3.sat
 
     def assume(self, e: typing.Any) -> None:
@@ -112,6 +123,45 @@ class Ctx:
         self.pos += 1
         self.assume(term == v)
         return v
+
+
+_FEAS_CACHE: typing.Dict[typing.Any, bool] = {}
+_VARS_CACHE: typing.Dict[int, typing.Tuple[typing.Any, frozenset]] = {}
+
+
+def term_vars(term: typing.Any) -> frozenset:
+    """names of the uninterpreted constants of a term (memoised by AST id; the term is kept alive so that ids are not reused)"""
+    key = term.get_id()
+    hit = _VARS_CACHE.get(key)
+    if hit is not None:
+        return hit[1]
+    if z3.is_const(term):
+        r = frozenset([term.decl().name()]) if term.decl().kind() == z3.Z3_OP_UNINTERPRETED else frozenset()
+    else:
+        r = frozenset().union(*[term_vars(c) for c in term.children()]) if term.num_args() else frozenset()
+    _VARS_CACHE[key] = (term, r)
+    return r
+
+
+def slice_pc(pcs: typing.Sequence[typing.Any], goal: typing.Any) -> typing.List[typing.Any]:
+    """the constraints of pcs connected to the goal through shared variables (transitive closure)"""
+    want = set(term_vars(goal))
+    rest = [(c, term_vars(c)) for c in pcs]
+    out: typing.List[typing.Any] = []
+    changed = True
+    while changed:
+        changed = False
+        keep = []
+        for c, vs in rest:
+            if not vs or (vs & want):
+                if vs:
+                    out.append(c)
+                    want |= vs
+                    changed = True
+            else:
+                keep.append((c, vs))
+        rest = keep
+    return out
 
 
 CTX: typing.Optional[Ctx] = None
